@@ -238,6 +238,15 @@ func (c *callback) Replace(name string, fn func(*DB)) error {
 	c.name = name
 	c.handler = fn
 	c.replace = true
+	// a replacement keeps the place of the "*" callback it replaces
+	for i := len(c.processor.callbacks) - 1; i >= 0 && c.before == "" && c.after == ""; i-- {
+		if o := c.processor.callbacks[i]; o.name == name && !o.remove {
+			if o.before == "*" || o.after == "*" {
+				c.before, c.after = o.before, o.after
+			}
+			break
+		}
+	}
 	c.processor.callbacks = append(c.processor.callbacks, c)
 	return c.processor.compile()
 }
